@@ -433,6 +433,10 @@ func run(c Case) *pbt.Violation {
 	for i := 0; i < 3; i++ {
 		sweepItems = append(sweepItems, frame(c.Codecs, lastTs+600+uint32(i), 30+(i/2)*(c.Merge+64), uint32(99800+i), false))
 	}
+	var sweepItems2 []gen.Item
+	for i := 0; i < 3; i++ {
+		sweepItems2 = append(sweepItems2, frame(c.Codecs, lastTs+700+uint32(i), 30+(i/2)*(c.Merge+64), uint32(99700+i), false))
+	}
 	markerNal := marker.Nals[0].Bytes()
 	markerKey := recKey(rec(marker, c.Codecs))
 	marker2Nal := mirror(marker).Nals[0].Bytes()
@@ -656,6 +660,10 @@ func run(c Case) *pbt.Violation {
 		case "sweep":
 			if !swept {
 				// two sweeps of every group with no bytes written to the stalled consumers in between
+				recvAtTick1 := map[*attached]int64{}
+				for _, x := range cons {
+					recvAtTick1[x] = x.conn.TotalReceived()
+				}
 				if v := r.tick(1); v != nil {
 					return v
 				}
@@ -696,10 +704,37 @@ func run(c Case) *pbt.Violation {
 						nothingWritten[ss.RemoteAddr] = true
 					}
 				}
+				for _, x := range cons { // bytes that did reach the transport between the sweeps: not "nothing written"
+					if x.conn.TotalReceived() != recvAtTick1[x] {
+						delete(nothingWritten, x.conn.LocalAddr().String())
+					}
+				}
 				if v := r.tick(2); v != nil {
 					return v
 				}
 				swept = true
+				// On a heavily loaded machine lal's writer goroutine for a stalled consumer can lag by more than the whole
+				// stall phase: it accounts its last completed write, or takes the next entry out of the full queue
+				// (which lets one more RTP packet be queued and counted), only after the first sweep has looked; then
+				// the second sweep still sees progress.  A consumer that survived is given one more round (data for the
+				// healthy ones, third sweep) before it counts as not disconnected
+				again := false
+				for _, x := range cons {
+					if x.spec.Stall && x.spec.End == "sweep" && (nothingWritten[x.conn.LocalAddr().String()] || flowing[x]) && !waitGone(x, 300*time.Millisecond) {
+						again = true
+					}
+				}
+				if again {
+					pbt.Count("third-sweep-for-lagging-writer", 1)
+					for _, it := range sweepItems2 {
+						if v := r.step(it, nil); v != nil {
+							return v
+						}
+					}
+					if v := r.tick(3); v != nil {
+						return v
+					}
+				}
 				for hi, h := range cons {
 					if !h.spec.Stall && h.rc != nil {
 						time.Sleep(time.Millisecond)
@@ -733,7 +768,7 @@ func run(c Case) *pbt.Violation {
 				continue
 			}
 			if !waitClosed(a, lalclient.DeliverTimeout) {
-				return pbt.V("S4/not-disconnected-by-sweep/"+a.spec.Kind, "stalled consumer %d (%s, stalled at %d) is still connected after two liveness sweeps during which nothing could be written to it", i, a.spec.Kind, a.spec.StallAt)
+				return pbt.V("S4/not-disconnected-by-sweep/"+a.spec.Kind, "stalled consumer %d (%s, stalled at %d) is still connected after two (and a third) liveness sweeps during which nothing could be written to it (lal closed its end: %v; bytes received %d, unread %d; in lal's group statistics: %v)", i, a.spec.Kind, a.spec.StallAt, a.conn.PeerGone(), a.conn.TotalReceived(), a.conn.Pending(), inGroupStat(s, a))
 			}
 		case "write-timeout":
 			a.conn.SetRecvWindow(-1)
@@ -932,6 +967,18 @@ func (r *runner) checkComplete(a *attached) *pbt.Violation {
 		}
 	}
 	return nil
+}
+
+// waitGone: lal has closed its end of the connection (seen without reading from it).
+func waitGone(a *attached, d time.Duration) bool {
+	deadline := time.Now().Add(d)
+	for !a.conn.PeerGone() {
+		if time.Now().After(deadline) {
+			return false
+		}
+		time.Sleep(time.Millisecond)
+	}
+	return true
 }
 
 func waitClosed(a *attached, d time.Duration) bool {
@@ -1164,7 +1211,7 @@ func uniq(in []string) []string {
 func TestStalledConsumer(t *testing.T) {
 	pbt.Run(t, pbt.Spec[Case]{
 		ID: "C15", Name: "stalled-consumer", Gen: genCase, Run: run, Classify: classify,
-		Quick: 200, Thorough: 2000,
+		Quick: 300, Thorough: 1500,
 	})
 }
 
@@ -1182,4 +1229,17 @@ func gotIdx(a *attached, P []lalclient.Rec) []int {
 		}
 	}
 	return out
+}
+
+func inGroupStat(s *inproc.Server, a *attached) string {
+	st := s.SM.StatGroup(stream)
+	if st == nil {
+		return "no group"
+	}
+	for _, ss := range st.StatSubs {
+		if ss.RemoteAddr == a.conn.LocalAddr().String() {
+			return fmt.Sprintf("yes (%s wrote=%d)", ss.SessionId, ss.WroteBytesSum)
+		}
+	}
+	return "no"
 }
